@@ -383,6 +383,9 @@ Proof.
   rewrite full_cb_eq. up. togs. exact Hi.
 Qed.
 
+Lemma no_space_simin w w' : simin w w' -> simin (snd (no_space w)) (snd (no_space w')).
+Proof. intros [H Hi]. split; [apply no_space_sim, H|exact Hi]. Qed.
+
 Lemma reserve2_sim d n w w' :
   simin w w' ->
   fst (reserve2 d n w) = fst (reserve2 d n w') /\ simin (snd (reserve2 d n w)) (snd (reserve2 d n w')).
@@ -398,8 +401,8 @@ Proof.
   - pose proof (wopen_simin d _ _ S2) as S3.
     destruct (csim_fields _ _ (sim_csim _ _ (proj1 S3))) as [_ [G2 [G3 _]]].
     rewrite <- G2, <- G3.
-    match goal with |- context [if ?c then _ else _] => destruct c end; cbn [fst snd].
-    + split; [reflexivity|]. split; [apply fail_sim, S3|apply S3].
+    destruct (gt_diff32 n _ _).
+    + split; [reflexivity|apply no_space_simin, S3].
     + split; [reflexivity|exact S3].
 Qed.
 
@@ -426,6 +429,23 @@ Proof.
   destruct (w_err w); apply IH; [exact H|apply do_ser_sim, H].
 Qed.
 
+Lemma trace_recheck_sim d e args at0 w w' :
+  sim w w' ->
+  fst (trace_recheck d e args at0 w) = fst (trace_recheck d e args at0 w') /\
+  sim (snd (trace_recheck d e args at0 w)) (snd (trace_recheck d e args at0 w')).
+Proof.
+  intros H.
+  destruct (csim_fields _ _ (sim_csim _ _ H)) as [F1 [F2 [F3 _]]].
+  unfold trace_recheck. rewrite <- F2, <- F3.
+  destruct (_ =? _); [split; [reflexivity|exact H]|].
+  destruct (size_parts _ _); [|split; [reflexivity|apply fail_sim, H]].
+  destruct (gt_diff32 _ _ _); [|split; [reflexivity|exact H]].
+  split; [reflexivity|]. cbn [snd fst].
+  pose proof (no_space_sim w w' H) as S1. apply setc_sim; [exact S1|].
+  destruct (csim_fields _ _ (sim_csim _ _ S1)) as [Q1 [Q2 [Q3 [Q4 [Q5 [Q6 [Q7 [Q8 [Q9 [Q10 [Q11 Q12]]]]]]]]]]].
+  apply csim_intro; up; congruence.
+Qed.
+
 (* C07 (b): the part of a tracing call after the enabled test does not depend on the switch nor on
    the toggles performed by the callbacks it invokes *)
 Theorem trace_body_sim d e args w w' :
@@ -446,6 +466,12 @@ Proof.
   { apply setc_sim; [exact S1|]. apply csim_intro; up; congruence. }
   replace (w_err (snd r')) with (w_err (snd r)) by apply S1.
   destruct (w_err (snd r)); [exact S1|].
+  destruct (trace_recheck_sim d e args (c_at (w_c w)) (snd r) (snd r') S1) as [E2 S2r].
+  rewrite <- E2.
+  destruct (fst (trace_recheck d e args (c_at (w_c w)) (snd r))) eqn:Ef; cbn [negb]; [|exact S2r].
+  rewrite (trace_recheck_true d e args _ (snd r) Ef).
+  rewrite (trace_recheck_true d e args _ (snd r')) by (rewrite <- E2; reflexivity).
+  clear S2r.
   unfold trace_ser. cbv zeta.
   assert (S2 : sim (trace_mark d (snd r)) (trace_mark d (snd r'))).
   { unfold trace_mark. rewrite <- G11. destruct (_ && _); [apply logev_sim|]; exact S1. }
